@@ -93,7 +93,9 @@ def check_model(cwd, module, cfg, must_cover=(), args=(), **kw):
     failure (the spec is wrong), not a VIOLATION of the implementation."""
     r = run(cwd, module, cfg, args=('-coverage', '1') + tuple(args), **kw)
     if not r.ok():
-        raise common.MachineryError('TLC rejects the specification %s/%s:\n%s' % (module, cfg, r.out[-4000:]))
+        i = r.out.find('Error:')
+        raise common.MachineryError('TLC rejects the specification %s/%s:\n%s' % (
+            module, cfg, r.out[i:i + 4000] if i >= 0 else r.out[-4000:]))
     for a in must_cover:
         if a not in r.coverage or r.coverage[a][1] == 0:
             raise common.MachineryError('vacuous model: action %s never taken in %s/%s' % (a, module, cfg))
